@@ -69,6 +69,9 @@ EXTRA_FAMILIES = {
     "p5": ([["exprate", 0], ["cos", 1], ["rat", 2], ["gauss", 3, 4]], 5, (0.25, 3.5)),
     "p6": ([["exprate", 0], ["cos", 1], ["rat", 2], ["gauss", 3, 4], ["exprate", 5]], 6, (0.25, 3.5)),
     "p7": ([["exprate", 0], ["cos", 1], ["rat", 2], ["gauss", 3, 4], ["expcos", 5, 6]], 7, (0.25, 3.5)),
+    # one function of EIGHT parameters (the largest arities of the closure dispatch), declared in and out of model order
+    "sum8a": ([["sum8", 0, 1, 2, 3, 4, 5, 6, 7], ["const"]], 8, (0.25, 4.5)),
+    "sum8b": ([["const"], ["sum8", 7, 5, 6, 4, 3, 1, 2, 0]], 8, (0.25, 4.5)),
     # many basis functions (16 / 24): one decay and a comb of parameter-free bumps
     "comb16": ([["exprate", 0]] + [["bump", j] for j in range(1, 16)], 1, (0.25, 1.5)),
     "comb24": ([["exprate", 0]] + [["bump", j] for j in range(1, 24)], 1, (0.25, 1.5)),
@@ -268,6 +271,8 @@ def py_basis(b, x, a):
             return math.exp(-a[b[1]] * x) * math.cos(a[b[2]] * x) + a[b[3]] * x * math.exp(-a[b[4]] * x)
         if k == "bump":
             return math.exp(-8.0 * (x - 0.5 * b[1]) ** 2)
+        if k == "sum8":
+            return sum(math.exp(-a[b[1 + i]] * x) / (x + i + 1) for i in range(8))
     except (OverflowError, ZeroDivisionError):
         return float("inf")
     raise ValueError(k)
